@@ -30,6 +30,7 @@ func (h toyH) Run(cfg Config, ch vrt.Chooser, trace bool) (Outcome, *vrt.Result)
 	var out Outcome
 	o := t.opt
 	o.Trace = trace
+	o.FreeSwitch = true
 	res := vrt.Run(ch, o, func() { out = t.f() })
 	if res.Aborted != "" {
 		out.Violations = append(out.Violations, Violation{Class: "abort:" + res.Aborted[:8], Msg: res.Aborted + fmt.Sprint(res.Parked)})
